@@ -79,6 +79,11 @@ impl TermLike for LineCatcher {
     fn write_str(&self, s: &str) -> io::Result<()> {
         let mut st = self.st.lock().unwrap_or_else(|e| e.into_inner());
         st.calls += 1;
+        // the single blank written right behind a first line without any width (it lets a cursor parked
+        // at the right edge wrap) belongs to that line's payload, it is not a line of its own
+        if s == " " && st.strs.len() == 1 && st.line_breaks == 0 && console::measure_text_width(&st.strs[0]) == 0 {
+            return Ok(());
+        }
         st.strs.push(s.to_string());
         Ok(())
     }
